@@ -280,7 +280,7 @@ def gen_climatology(rng, maxn=10):
     else:
         z = [None if rng.random() < 0.2 else rng.choice(zanch) + rng.choice([0, 0, H, -H, 1]) for _ in range(n)]
     return {"fn": "climatology", "members": members, "inp": inp, "t": t, "z": z,
-            "tkind": rng.choice(["iso", "stamp", "dt64"]), "clim_object": rng.random() < 0.3}
+            "tkind": rng.choice(["iso", "stamp", "dt64"]), "clim_object": rng.choice([False, False, False, False, True, True, "grown", "grown"])}
 
 
 def gen_spike(rng, maxn=12):
